@@ -55,6 +55,9 @@ type CrashSpec struct {
 	ImageAt    []int64 `json:"image_at,omitempty"` // C10: materialise the durable image at these events
 	ImageDir   string  `json:"image_dir,omitempty"`
 	Compactors int     `json:"compactors"`
+	// ManifestRewrite > 0: run the production MANIFEST rewrite (write MANIFEST-REWRITE, sync, rename
+	// over MANIFEST, sync directory) every that many milliseconds during the workload
+	ManifestRewrite int `json:"manifest_rewrite,omitempty"`
 	MemTable   int64   `json:"memtable"`
 }
 
@@ -494,6 +497,25 @@ func ChildCrash(specPath string) int {
 				txn.Discard()
 			}
 		}(cl)
+	}
+	if s.ManifestRewrite > 0 {
+		// the production rewrite (threshold: 10000 deletions and ten times the live tables) is run on
+		// demand every few milliseconds, concurrently with the flushes and compactions that append
+		gcwg.Add(1)
+		go func() {
+			defer gcwg.Done()
+			for {
+				select {
+				case <-stop:
+					return
+				case <-time.After(time.Duration(s.ManifestRewrite) * time.Millisecond):
+				}
+				if err := db.VerifRewriteManifest(); err != nil {
+					sl.line("X manifest rewrite %v", err)
+					return
+				}
+			}
+		}()
 	}
 	if s.Family == "drops" {
 		gcwg.Add(1)
